@@ -436,6 +436,13 @@ def apply_contract(eng, c: Contract, fv, args, kwargs, st: State):
             out.append((s, r))
             continue
         # universally quantified ghost inputs: the caller's variable of the same name if it has one, else arbitrary
+        # arguments whose union has a single alternative left on this path (e.g. an Optional already tested against None)
+        for pname, pv in list(s.env.f.items()):
+            if isinstance(pv, VUnion):
+                live = [(g_, a_) for g_, a_ in pv.alts if smt.feasible(s.pc, g_)]
+                if len(live) == 1:
+                    s.assume(live[0][0])
+                    s.env.f[pname] = live[0][1]
         gconsts = []
         for gname, gty in c.ghost_params.items():
             gv = fresh(eng, s, gty, gname)
@@ -468,10 +475,10 @@ def apply_contract(eng, c: Contract, fv, args, kwargs, st: State):
             if isinstance(spec, str):
                 spec = {"when": spec}
             s_exc = s.clone()
-            if spec.get("when"):
-                g = eval_clause(eng, s_exc, _parse_expr(spec["when"]))
-                s_exc.assume(g)
             exc = eng.fresh_exception(s_exc, cls) if hasattr(eng, "fresh_exception") else eng.make_exc(s_exc, cls, [])
+            if spec.get("when"):
+                g = eval_clause(eng, s_exc, _parse_expr(spec["when"]), {"exc": exc})
+                s_exc.assume(g)
             for e_txt in spec.get("ensures", []):
                 if isinstance(e_txt, tuple):
                     if e_txt[0].startswith("own:"):
@@ -960,7 +967,7 @@ def check_exceptional_exit(eng, c: Contract, s: State, o: Raised):
         for s3 in run_hints(eng, s2, c.exc_hints, {"exc": o.exc}):
             if spec.get("when"):
                 g = eval_clause(eng, s3, _parse_expr(spec["when"]), {"exc": o.exc})
-                oblige(eng, s3, g, f"raises:{nm}/when", kind=spec.get("kind", c.kind))
+                oblige(eng, s3, g, f"raises:{nm}/when", kind=spec.get("kind", c.kind), tags=spec.get("tags"))
             for i, e_txt in enumerate(spec.get("ensures", [])):
                 name = e_txt[0] if isinstance(e_txt, tuple) else f"post{i + 1}"
                 txt = e_txt[1] if isinstance(e_txt, tuple) else e_txt
